@@ -386,31 +386,31 @@ func (s *FakeSession) ID() uint32     { return uint32(s.id) }
 func (s *FakeSession) RemoteAddr() string {
 	return s.addr
 }
-func (s *FakeSession) LocalAddr() string                   { return "127.0.0.1:50000" }
-func (s *FakeSession) SetCompressType(getty.CompressType)  {}
-func (s *FakeSession) IncReadPkgNum()                      {}
-func (s *FakeSession) IncWritePkgNum()                     {}
-func (s *FakeSession) UpdateActive()                       {}
-func (s *FakeSession) GetActive() time.Time                { return time.Now() }
-func (s *FakeSession) ReadTimeout() time.Duration          { return time.Second }
-func (s *FakeSession) SetReadTimeout(time.Duration)        {}
-func (s *FakeSession) WriteTimeout() time.Duration         { return time.Second }
-func (s *FakeSession) SetWriteTimeout(time.Duration)       {}
-func (s *FakeSession) Send(interface{}) (int, error)       { return 0, nil }
-func (s *FakeSession) CloseConn(int)                       {}
-func (s *FakeSession) SetSession(getty.Session)            {}
-func (s *FakeSession) Reset()                              {}
-func (s *FakeSession) Conn() net.Conn                      { return nil }
-func (s *FakeSession) Stat() string                        { return fmt.Sprintf("fakesession-%d", s.id) }
-func (s *FakeSession) EndPoint() getty.EndPoint            { return nil }
-func (s *FakeSession) SetMaxMsgLen(int)                    {}
-func (s *FakeSession) SetName(string)                      {}
+func (s *FakeSession) LocalAddr() string                    { return "127.0.0.1:50000" }
+func (s *FakeSession) SetCompressType(getty.CompressType)   {}
+func (s *FakeSession) IncReadPkgNum()                       {}
+func (s *FakeSession) IncWritePkgNum()                      {}
+func (s *FakeSession) UpdateActive()                        {}
+func (s *FakeSession) GetActive() time.Time                 { return time.Now() }
+func (s *FakeSession) ReadTimeout() time.Duration           { return time.Second }
+func (s *FakeSession) SetReadTimeout(time.Duration)         {}
+func (s *FakeSession) WriteTimeout() time.Duration          { return time.Second }
+func (s *FakeSession) SetWriteTimeout(time.Duration)        {}
+func (s *FakeSession) Send(interface{}) (int, error)        { return 0, nil }
+func (s *FakeSession) CloseConn(int)                        {}
+func (s *FakeSession) SetSession(getty.Session)             {}
+func (s *FakeSession) Reset()                               {}
+func (s *FakeSession) Conn() net.Conn                       { return nil }
+func (s *FakeSession) Stat() string                         { return fmt.Sprintf("fakesession-%d", s.id) }
+func (s *FakeSession) EndPoint() getty.EndPoint             { return nil }
+func (s *FakeSession) SetMaxMsgLen(int)                     {}
+func (s *FakeSession) SetName(string)                       {}
 func (s *FakeSession) SetEventListener(getty.EventListener) {}
-func (s *FakeSession) SetPkgHandler(getty.ReadWriter)      {}
-func (s *FakeSession) SetReader(getty.Reader)              {}
-func (s *FakeSession) SetWriter(getty.Writer)              {}
-func (s *FakeSession) SetCronPeriod(int)                   {}
-func (s *FakeSession) SetWaitTime(time.Duration)           {}
+func (s *FakeSession) SetPkgHandler(getty.ReadWriter)       {}
+func (s *FakeSession) SetReader(getty.Reader)               {}
+func (s *FakeSession) SetWriter(getty.Writer)               {}
+func (s *FakeSession) SetCronPeriod(int)                    {}
+func (s *FakeSession) SetWaitTime(time.Duration)            {}
 func (s *FakeSession) GetAttribute(k interface{}) interface{} {
 	s.attrMu.Lock()
 	defer s.attrMu.Unlock()
